@@ -154,17 +154,32 @@ def contents_of(path):
     return contents_of_image(read_image(path))
 
 
+FLOAT_RE = re.compile(rb'[+-]?(\d+\.\d*|\.\d+|\d+)([eE][+-]?\d+)?')
+
+
+def _canon_piece(t):
+    if t.startswith(b'w:') and len(t) == 18:        # bit pattern printed by the model (min/max of computed data)
+        import struct
+        return b'f:' + struct.unpack('>d', bytes.fromhex(t[2:].decode()))[0].hex().encode()
+    if FLOAT_RE.fullmatch(t) and not re.fullmatch(rb'[+-]?\d+', t):
+        return b'f:' + float(t).hex().encode()
+    if t in (b'inf', b'-inf'):
+        return b'f:' + float(t).hex().encode()
+    return t
+
+
 def canon_tokens(text):
-    """token lines with float-valued tokens replaced by their value (hex), so
-    that str(float(x)) and the original spelling compare equal"""
+    """token lines with float-valued tokens (also inside comma-separated
+    min/max rows) replaced by their value (hex), so that str(float(x)) and
+    the original spelling compare equal"""
     out = []
     for line in text:
         l2 = []
         for t in line:
-            if re.fullmatch(rb'[+-]?(\d+\.\d*|\.\d+|\d+)([eE][+-]?\d+)?', t) and not re.fullmatch(rb'[+-]?\d+', t):
-                l2.append(b'f:' + float(t).hex().encode())
+            if b',' in t and not t.startswith(b'('):
+                l2.append(b','.join(_canon_piece(x) for x in t.split(b',')))
             else:
-                l2.append(t)
+                l2.append(_canon_piece(t))
         out.append(b' '.join(l2).split())
     return out
 
@@ -182,8 +197,10 @@ def same_image(a, b):
         return f"directories {sorted(a['dirs'])} vs {sorted(b['dirs'])}"
     for name in a['dirs']:
         da, db = a['dirs'][name], b['dirs'][name]
-        if da['cellh'] != db['cellh']:
-            for i, (x, y) in enumerate(zip(da['cellh'] or [], db['cellh'] or [])):
+        ca = canon_tokens(da['cellh']) if da['cellh'] is not None else None
+        cb = canon_tokens(db['cellh']) if db['cellh'] is not None else None
+        if ca != cb:
+            for i, (x, y) in enumerate(zip(ca or [], cb or [])):
                 if x != y:
                     return f"{name}/Cell_H line {i}: {x} vs {y}"
             return f"{name}/Cell_H: {len(da['cellh'] or [])} vs {len(db['cellh'] or [])} lines"
